@@ -341,8 +341,21 @@ def check_items(col, crate, sfx):
     gen = [str(f_["ty"]) for f_ in util.fields_of(util.need_adt(crate, "Combinator"))[:2]]
     if len(gen) != 2 or gen[0] == gen[1]:
         raise Anchor("Combinator is expected to be a pair of two different component types")
+    def _impl_gen(b_):
+        """the two component types as THIS impl block names them (`impl<A, B, Md> SegtreeItem<Md> for Combinator<A, B>` over
+        a struct declared `Combinator<U, V>(U, V)`): the arguments of the impl's self type, by position"""
+        ty_ = str((crate.impl_of(b_) or {}).get("self_ty") or "")
+        k_ = ty_.find("<")
+        if k_ > 0 and ty_.endswith(">"):
+            parts_ = [x.strip() for x in ty_[k_ + 1:-1].split(",")]
+            if len(parts_) == 2 and all(_re_ident(x) for x in parts_) and parts_[0] != parts_[1]:
+                return parts_
+        return gen
+
+    gen0 = gen
     for m in sorted(k for k in impl if k != "__impl__"):
         b = impl[m]
+        gen = _impl_gen(b) if gen0 else gen0
         I = A(b)
         for st in I.final_states:
             evs = [e for e in st.event_list() if e.kind == "call" and e.extra.get("name") == m and (e.extra.get("trait") or "").endswith("SegtreeItem")]
@@ -379,9 +392,11 @@ def check_items(col, crate, sfx):
                 col.violation("R8" + sfx, key, b.loc(), "Combinator::%s does not forward component-wise (.0 to U with .0 operands, .1 to V with .1 operands): %s" % (m, detail))
     inherited = [x for x in ("merge", "update", "modify", "push") if x not in impl]
     col.ok("R8" + sfx, "-", "Combinator|inherited=%s" % ",".join(inherited), "inherited defaults: %s" % inherited, nontrivial=False)
+    gen = gen0
     fi = _impl_bodies(crate, "Combinator", "From")
     if "from" in fi:
         b = fi["from"]
+        gen = _impl_gen(b)
         I = A(b)
         for st in I.final_states:
             evs = [e for e in st.event_list() if e.kind == "call" and e.extra.get("name") == "from"]
@@ -394,6 +409,11 @@ def check_items(col, crate, sfx):
                 col.ok("R8" + sfx, b.loc(), key, "Combinator(U::from(v), V::from(v))")
             else:
                 col.violation("R8" + sfx, key, b.loc(), "Combinator::from must build (U::from(v), V::from(v))")
+
+
+def _re_ident(x):
+    import re as _re
+    return bool(_re.fullmatch(r"[A-Za-z_][A-Za-z0-9_]*", x))
 
 
 def _check_update(col, sfx, nm, b, fields):
